@@ -11,25 +11,53 @@ CFG = dict(
                    "of the SQL statements of pkg/ref/sql (PK / NOT NULL failures, RunInTx rollback, COUNT(*)+1 ordinals, "
                    "ORDER BY) returns step by step what a plain map with per-name logs returns, for the WHERE clause "
                    "instr(name,?)=1 (proved = literal is_prefix for all byte strings); frame, exact bulk delete / listing, log "
-                   "faithfulness, append-only logs and rename/copy carry theorems over all reachable states; the pre-fix LIKE "
+                   "faithfulness, append-only logs and rename/copy carry theorems over all reachable states; C15_bulk_rename_exact / "
+                   "_succeeds: RenameAllRemoteRefs (= `wrgl remote rename`) is a map operation on exactly the names under "
+                   "remotes/<old>/ (value and whole log arrive under remotes/<new>/<same rest>, for any remote names, e.g. "
+                   "ones occurring inside the literal 'remotes/'), and succeeds whenever the destinations are free; the pre-fix LIKE "
                    "clause is proved not to be prefix matching and not to refine. Model tied to the real SQLite-backed store "
                    "by differential execution (exhaustive small scope + random sequences) and SQLite's LIKE/instr themselves "
                    "to model/Like.v.",
         level_note="Theorems are about coq/model/RefSql.v (hand transliteration of the SQL statements) and model/Like.v; the "
                    "WHERE-clause kind is re-read from the Go source by the translator (gen/Extracted.v filter_kind) and the "
                    "extracted model run by the correspondence follows it; tie = correspondence harness on real in-memory "
-                   "SQLite. The file store pkg/ref/fs is run on the same sequences and its differences from the plain map "
-                   "are counted (fs_diff_* in input_distribution), not proved and not failed: it has directory semantics.",
+                   "SQLite, plus an on-disk repository (pkg/local RepoDir + migrations) driven through the real `wrgl remote "
+                   "rename|remove` commands (ops 17/18 are modelled as RenameAllRemoteRefs / DeleteAllRemoteRefs; the harness "
+                   "keeps the remote configuration in step because `remote rename` exits the process for an unconfigured "
+                   "remote; `rename r r` is not generated). The file store pkg/ref/fs (not modelled in Coq: oracle-only) is "
+                   "run on the same sequences and judged STRICTLY (oracle classes fs-<op>) against the plain map inside the "
+                   "sub-domain where a directory tree can act as a flat map: clean path names that never conflict as file vs "
+                   "directory with any name written before (directories are never removed); reflog fields the one-line text "
+                   "format can carry (author non-empty and without '<' or digits after its first character, action non-empty "
+                   "without ':', no newline; the transaction id is not stored and not compared); Delete of an existing name; "
+                   "Rename/Copy (and RenameRef/CopyRef) whose source is missing, or whose destination is free and conflict-free "
+                   "(Copy: source has a log); Get; LogReader of a conflict-free name; Filter/FilterKey/list helpers with at "
+                   "most one prefix that is empty or ends in '/' and no notPrefixes (keys compared sorted); "
+                   "DeleteAllRemoteRefs/DeleteTransactionRefs; RenameAllRemoteRefs with non-nested prefixes and every "
+                   "destination free. Strict judgement lasts until the first MUTATING step outside that sub-domain; from "
+                   "there on, and for read-only steps outside it, differences are only counted (fs_diff_* / "
+                   "fs_strict_ends_at_* in input_distribution) - the store has directory semantics (Delete of a missing "
+                   "name errors, Rename/Copy overwrite, listings ignore notPrefixes, nested names conflict).",
         rule="fixed witnesses (the LIKE defect 1d9837e on remotes a_b/acb/A_B/a%/a: list, bulk delete, bulk rename; log/rename/copy "
              "script; nested remotes; partial bulk rename; transactions); exhaustive: all sequences of <=2 (quick) / <=3 "
              "(thorough) ops from a 41-op alphabet (Set, SetWithLog, Delete, Rename, Copy on 6 names that collide under LIKE; "
              "DeleteAllRemoteRefs / RenameAllRemoteRefs on 5 remotes) each followed by 25 observing calls (FilterKey, Filter, "
              "ListLocalRefs, Get+LogReader of 7 names, ListRemoteRefs of 6 remotes); random: 1..40 ops of all 17 kinds over a "
              "per-case sub-alphabet of 30 names / 11 remotes / 18 prefixes (with '_', '%', case variants, nested paths, "
-             "prefixes of one another, arbitrary cut points); kind-1 cases: SQLite `? LIKE ?||'%'` and `instr(?,?)` on all "
+             "prefixes of one another, arbitrary cut points; remotes also named by substrings of the namespace literals: "
+             "o s e r m t es remote remotes heads tags txs); batch nsrem: for each such remote (and a_b, origin) x 6 new "
+             "names: refs with and without logs under the remote (one branch named like the remote), other remote, heads/ "
+             "and tags/ of the same name, then ListRemoteRefs, RenameAllRemoteRefs and 13 observing/deleting calls; batch "
+             "cli (kind 2): the same scripts (every 3rd in quick) and 40 (quick) / 600 (thorough) random sequences of "
+             "SaveRef / `wrgl remote rename` / `wrgl remote remove` / ListRemoteRefs on an on-disk repository, tables "
+             "read back from the sqlite.db file; batch fslog (kind 3, file store always run): 60 (quick) / 1200 "
+             "(thorough) cases of 1..40 (thorough 1..150) logged sets over 1-3 conflict-free names with messages of "
+             "0..130 (300; thorough also 900..2300) bytes around a per-case base length so that the log reader's "
+             "1024-byte chunks are cut at every position of a line, interleaved with Set, Get, LogReader, Rename/Copy to "
+             "fresh names (log carried) and Delete + re-creation; kind-1 cases: SQLite `? LIKE ?||'%'` and `instr(?,?)` on all "
              "strings over {a,A,_,%,b} (p<=2,s<=2 quick; <=3 thorough) + random strings with UTF-8. After EVERY step the "
              "oracle (Go map + log slices, strings.HasPrefix) is compared with the call's result and with the tables read "
-             "back by plain SQL. distinct = distinct case text; non-trivial = at least one (exhaustive) / two (random) "
+             "back by plain SQL. distinct = distinct case text; non-trivial = at least one (exhaustive) / two (random, fslog) "
              "mutating-or-observing ops before the observation suffix, non-empty pattern for kind 1",
         trusted=["SQL semantics as modelled in model/RefSql.v: tables as bags of rows, BINARY collation = bytewise compare, "
                  "PRIMARY KEY / NOT NULL failures abort the statement, RunInTx rollback restores the pre-transaction state, "
@@ -39,5 +67,6 @@ CFG = dict(
                  "reflog time column not modelled (never compared); values are non-NULL byte strings"],
         assumptions=["ref values passed to the store are non-nil byte slices (16-byte sums)",
                      "SQLite foreign key enforcement is off (default of the mattn driver as opened by pkg/local)",
-                     "single connection / no concurrent writers (each method is one statement or one transaction)"],
+                     "single connection / no concurrent writers (each method is one statement or one transaction)",
+                     "file store: judged only on the sub-domain described in level_note (oracle only, no Coq model)"],
 )
